@@ -23,7 +23,7 @@ RULE = (
 )
 ASSUMPTIONS = ["dense reference; two circuits are equivalent iff they have the same registers and the same (unnormalised) state in every "
                "outcome branch, which does not depend on the forced-outcome convention or on the order of commuting measurements"]
-REQUIRED_CLASSES = {"pairs": ["edit:copy", "edit:rewrap", "edit:identities", "edit:relinearise", "edit:swap_ct", "edit:gate_kind",
+REQUIRED_CLASSES = {"pairs": ["compared_again_after_replace_op", "edit:copy", "edit:rewrap", "edit:identities", "edit:relinearise", "edit:swap_ct", "edit:gate_kind",
                               "edit:swap_adjacent", "edit:swap_two_qubit_order", "edit:retarget", "edit:rename", "reported_equal_noncopy", "iso_equal_direct_unequal"]}
 
 METHODS = ["direct", "is_isomorphic"]
@@ -265,6 +265,33 @@ def check_pair(case, sub="pairs"):
             raise Violation(sub, "not-reflexive", method, icls, "a circuit compares unequal to its copy")
     if c1.to_openqasm() != q1 or c2.to_openqasm() != q2:
         raise Violation(sub, "argument-mutated", "compare_circuits", "plain", "comparison changed a circuit")
+    # a circuit that has been compared is edited in place (one gate replaced on its node) and compared again: the answers must
+    # be about the circuit as it is now
+    c2b, objs2 = gc.build(d2, return_ops=True)
+    for method in [m_ for m_ in case.get("methods", METHODS) if not m_.startswith("GED")]:
+        guarded(sub, "edited_in_place", compare_circuits, c1, c2b, method=method)
+    idx = [i for i, d in enumerate(d2["ops"]) if d[0] in ("H", "P", "X", "Z")]
+    if idx and "GED_full" not in case.get("methods", METHODS)[:1]:
+        i = idx[case.get("edit_pick", 0) % len(idx)]
+        nid = [x for x in c2b.dag.nodes if c2b.dag.nodes[x].get("op") is objs2[i]]
+        if len(nid) == 1:
+            d = d2["ops"][i]
+            nd = [{"H": "P", "P": "H", "X": "Z", "Z": "X"}[d[0]], d[1], d[2]]
+            d3 = dict(d2, ops=[list(x) for x in d2["ops"][:i]] + [nd] + [list(x) for x in d2["ops"][i + 1:]])
+            guarded(sub, "edited_in_place", c2b.replace_op, nid[0], gc.make_op(nd))
+            fresh_new, fresh_old = gc.build(d3), gc.build(d2)
+            same_old = equivalent(d3, d2)
+            same_old_iso = same_old or equivalent(d3, d2, up_to_renaming=True)
+            for method in [m_ for m_ in case.get("methods", METHODS) if not m_.startswith("GED")]:
+                r_new = guarded(sub, "edited_in_place", compare_circuits, c2b, fresh_new, method=method)
+                r_old = guarded(sub, "edited_in_place", compare_circuits, c2b, fresh_old, method=method)
+                if not r_new:
+                    raise Violation(sub, "not-reflexive", method, "edited_in_place",
+                                    "after replace_op the circuit compares unequal to a freshly built circuit with the same operations")
+                if r_old and not (same_old_iso if method == "is_isomorphic" else same_old):
+                    raise Violation(sub, "unsound", method, "edited_in_place",
+                                    "after replace_op the circuit still compares equal to its old content, which is inequivalent")
+            cl.append("compared_again_after_replace_op")
     noncopy = any(k not in ("copy",) for k in kinds)
     if any(res.values()) and noncopy:
         cl.append("reported_equal_noncopy")
